@@ -15,7 +15,8 @@ PRELUDE = {'Option': 'std::option::Option', 'Result': 'std::result::Result', 'Ve
 def strip_lifetimes(t):
     t = re.sub(r"&'\w+ ", '&', t)
     t = re.sub(r"for<[^>]*> ", '', t)
-    t = re.sub(r"<'\w+>", '', t)
+    t = re.sub(r"::<'\w+(?:, '\w+)*>", '', t)
+    t = re.sub(r"<'\w+(?:, '\w+)*>", '', t)
     t = re.sub(r"<'\w+, ", '<', t)
     t = re.sub(r", '\w+(?=[,>])", '', t)
     t = re.sub(r" \+ '\w+", '', t)
